@@ -1,0 +1,29 @@
+//go:build verif
+
+// Contracts for the gocv verifier (comment-only file; see /verif/DESIGN.md §4).
+package bootstrap
+
+//@ type Bootstrap
+//@   immutable fqdn, port, bootstrap, qt, logger, readyNotify
+//@   invariant self.readyNotify != nil
+
+//@ func bootstrapVer2Qt [C18]
+//@   ensures result_1 == (ver == 0 || ver == 4 || ver == 6)
+
+// New (C18): every upstream gets its OWN resolver object carrying exactly the host and the port
+// it was configured with (nothing is shared between upstreams).
+//@ func New [C18]
+//@   modifies *
+//@   ensures result_1 == nil ==> result_0 != nil && fresh(result_0) && result_0.port == port && result_0.fqdn == ret(dnsFqdn, 0) && arg(dnsFqdn, 0, 0) == host && result_0.readyNotify != nil
+//@   ensures (result_0 != nil) != (result_1 != nil)
+
+// updateAddr (C18): the address handed to the dialer is the resolved IP joined with exactly the
+// configured port.
+//@ func (sp *Bootstrap) updateAddr [C18]
+//@   requires sp != nil
+//@   modifies *
+//@   ensures result_2 == nil ==> calls(addrPortFrom) == 1 && arg(addrPortFrom, 0, 0) == ret(bsResolve, 0, 0) && arg(addrPortFrom, 0, 1) == sp.port
+//@ func (sp *Bootstrap) resolve
+//@   nobody
+//@   log bsResolve
+//@   modifies *
